@@ -471,3 +471,8 @@ mod tests {
         assert_eq!(val.to_bits(), (-0.0f32).to_bits());
     }
 }
+
+// verification hook: bounded-model-checking harnesses (compiled only by Kani, `--cfg kani`)
+#[cfg(kani)]
+#[path = "/verif/harness/h_parse_scalars.rs"]
+mod verif;
